@@ -22,10 +22,11 @@ func main() {
 	root := flag.String("root", "/verif", "verif root")
 	replay := flag.String("replay", "", "replay file")
 	emit := flag.Bool("emit", false, "child-process mode of C10: print one digest per case")
+	child := flag.Bool("child", false, "child-process mode of C11 (race-enabled binary): run the shared-schema histories")
 	flag.Parse()
 	known, flags := core.LoadKnown(*root)
 	nw := runtime.NumCPU()
-	if *replay != "" || *emit {
+	if *replay != "" || *emit || *child {
 		nw = 1
 	}
 	pool, err := drv.NewPool(*root+"/driver/driver", nw, flags)
@@ -40,6 +41,10 @@ func main() {
 	}
 	if *emit {
 		props.EmitC10(c)
+		return
+	}
+	if *child {
+		props.C11Child(c)
 		return
 	}
 	run := props.Runners[*prop]
